@@ -54,16 +54,17 @@ CHECKS = {
         design="§4 C03",
     ),
     "C04": dict(
-        text=("Coq theorems on the ingredients of the notification decision, for all header maps / tracker states: the code's "
-              "header comparison is true exactly when a non-volatile header present in both maps differs (the statement's "
-              "volatile list tied to the generated IGNORED_HEADERS), the combined headers at notification time are the search "
-              "headers overlaid by the advertisement headers header-by-header (through the C16 refinement), at most one "
-              "notification per message. The history-level clauses notify_exact and snapshot (expected notification and snapshot "
-              "computed from the history and the previously observed device map) are executable and are evaluated on the "
-              "implementation's and the model's observations on every run; their proof for all histories is not done "
-              "(notify_exact_partial, see DESIGN.md)."),
-        technique="Coq proof of the decision ingredients (C16-based) + executable history-level spec evaluated in Coq on implementation observations (differential correspondence)",
-        design="§4 C04",
+        text=("Coq theorem C04_notify_exact: for every history of the domain the tracker model's notification (device, type, "
+              "source) and the combined headers handed out at notification time are exactly what the executable specification "
+              "C04.Spec.expect computes from the history and the device map before the message (changed iff the device was not "
+              "known and valid, the type is new for it, the location is new in a known address family, or a non-volatile header "
+              "differs from the previous message of that type; snapshot = search headers overlaid by advertisement headers), proved by an "
+              "invariant relating the stored header maps to the history (C04/History.v), with the ingredient theorems "
+              "(header comparison exact w.r.t. the statement's volatile list tied to the generated IGNORED_HEADERS, snapshot "
+              "through the C16 refinement, at most one notification). The same executable clauses are evaluated in Coq on the "
+              "implementation's observations on every run, and the model is compared with the implementation on the same histories."),
+        technique="Coq proof (invariant by induction over histories, C16 refinement for header maps) of the notification/snapshot clauses + the same clauses evaluated in Coq on implementation observations (differential correspondence)",
+        design="§4 C04, §11.3",
     ),
     "C05": dict(
         text=("Nine closed Coq theorems over an executable two-stage model (ElementTree queries; everything that can raise or "
@@ -126,12 +127,27 @@ CHECKS = {
               "the UDA table (ssdp:all 1+2d+k, rootdevice, UUID, type of equal or lower version echoing the request, else nothing); "
               "each answer is sent exactly once within the MX window to the requester; the pairs advertised with ssdp:alive "
               "round-robin once per announce interval and revoked with ssdp:byebye on stop are exactly the ssdp:all pairs; every "
-              "USN begins with the UUID of the described device; every emitted message, once decoded (C01's round trip is an "
-              "explicit, named premise), is accepted by the C03 tracker model as that device at base_uri + device_url. Tied to "
+              "USN begins with the UUID of the described device; every emitted message, built and decoded by the C01 wire-codec model "
+              "(the decoding premise is discharged in C13/Decode.v for every unscoped sender), is accepted by the C03 tracker "
+              "model as that device at base_uri + device_url. Tied to "
               "/repo by tables regenerated from server.py and by differential runs of the real responder and announcer in virtual "
               "time, every emitted datagram fed to a real SsdpListener."),
         technique="Coq proof (invariant-based induction over histories tying a monitor automaton to the model's pending timers; composition with the C03 model) + generated tables + virtual-time differential correspondence",
         design="§4 C13",
+    ),
+    "C14": dict(
+        text=("Machine-checked theorems about an executable model of server.py (as repaired by D9, D10, D34-D36) composed with the "
+              "verified client models C05-C08, for every well-formed server definition, every oracle answer, every accepted keyword "
+              "assignment, every handler result and every request (any header, any XML tree or non-XML): the served description and "
+              "SCPD documents make the client factory build an object model mirroring the definition (C05's mirror relation, step "
+              "texts included); a valid call reaches the handler with exactly the in-arguments and the caller gets exactly the "
+              "handler's typed results; a handler-raised action error reaches the caller with the same code; calls the definition "
+              "does not accept never leave the client; every malformed / unknown-action / unknown-, unparseable-, missing- or "
+              "invalid-argument request is answered with a 4xx or a SOAP fault and no exception ever leaves the handler. The clause "
+              "booleans are the same definitions the correspondence check evaluates on the real client talking to the real handlers "
+              "(classes built by type(...), requests by make_mocked_request, no sockets). aiohttp's route registration is not modelled."),
+        technique="Coq proof (refinement to C05's mirror relation via parse-after-serialise lemmas; composition of the C06 request and C07 decode theorems through the server model; total characterisation of the request handler) + differential correspondence with the real server handlers and client",
+        design="§4 C14, §11.2",
     ),
     "C15": dict(
         text=("Coq theorems over all histories of SUBSCRIBE, renewal, UNSUBSCRIBE, variable assignments, clock advances, NOTIFY "
